@@ -2,6 +2,8 @@
 
 package ecs
 
+import "os"
+
 // Harness primitives. The bodies below are the NATIVE semantics used when a
 // counterexample is replayed against the real build; the symbolic engine
 // (/verif/engine) intercepts calls to these functions by name.
@@ -84,6 +86,9 @@ func vclockbound(d uint64) {}
 // vreps: how often a run-to-run comparison is repeated natively (Go randomises map
 // iteration per range statement); the engine explores iteration orders itself and uses 1.
 func vreps() int { return 48 }
+
+// vthorough: the thorough tier is running (engine flag -tier; natively VERIF_TIER)
+func vthorough() bool { return os.Getenv("VERIF_TIER") == "thorough" }
 
 // vthreads runs the closures as concurrent threads. Engine: thread-modular lockset
 // analysis (every pair of conflicting accesses to shared memory with disjoint locksets
